@@ -126,6 +126,47 @@ def judgement(case, pcs, out, d):
     return res, trace
 
 
+def symptom(klass):
+    return klass.split(":")[0]
+
+
+def evaluate(cases):
+    outs = run_pool(K.impl, cases, timeout=K.SAT_TIMEOUT + 20.0)
+    pcss, replies = K.run_model(cases, outs, mode=5)
+    res = []
+    for case, pcs, out, rp in zip(cases, pcss, outs, replies):
+        d = K.unpack(rp)
+        rep = {"case": case, "proto": pcs, "impl": out,
+               "model": {"sols": d["sols"], "proj": d["proj"], "mirror_cnf": d["mirror"],
+                         "sat_model_checks": d["sat_model_checks"]}}
+        res.append((judgement(case, pcs, out, d)[0], rep, pcs))
+    return res
+
+
+def report(ctx, case, klass, what, rep):
+    """ctx.fail, after shrinking the first few failing inputs (same symptom must persist)."""
+    if getattr(ctx, "_shrunk", 0) >= 5 or ctx.known_match(FN, klass) is not None:
+        return ctx.fail(FN, klass, what, rep)
+    ctx._shrunk = getattr(ctx, "_shrunk", 0) + 1
+    sym = symptom(klass)
+
+    def fails_with(cands):
+        return [any(symptom(k) == sym for k, _, _ in f) for f, _, _ in evaluate(cands)]
+
+    small, steps = K.minimise(case, fails_with)
+    if steps:
+        fails, rep2, pcs = evaluate([small])[0]
+        hit = next(((k, w, n) for k, w, n in fails if symptom(k) == sym), None)
+        if hit is not None:
+            k2, w2, needs = hit
+            if needs:
+                k2 += ":" + (K.tag_of(pcs[0]) if len(pcs) == 1 else "none" if not pcs else klass.split(":", 1)[-1])
+            rep2["shrunk_from"] = {"case": case, "class": klass, "steps": steps}
+            ctx.count("shrunk_failures")
+            return ctx.fail(FN, k2, w2, rep2)
+    return ctx.fail(FN, klass, what, rep)
+
+
 def run_cases(ctx, cases, attribute=True):
     K.preload()
     outs = run_pool(K.impl, cases, timeout=K.SAT_TIMEOUT + 20.0)
@@ -153,7 +194,7 @@ def run_cases(ctx, cases, attribute=True):
             if needs and attribute and pcs:
                 pending.append((case, pcs, klass, what, rep))
             else:
-                ctx.fail(FN, klass + (":none" if needs else ""), what, rep)
+                report(ctx, case, klass + (":none" if needs else ""), what, rep)
         if trace is True:
             ctx.cov["r_trace_agree"] += 1
         elif trace is False:
@@ -188,7 +229,7 @@ def run_cases(ctx, cases, attribute=True):
                 rep = {**rep, "attributed_to_constraint": found[n]}
             else:
                 tag = "combination:" + "+".join(sorted({K.tag_of(p) for p in pcs}))
-            ctx.fail(FN, f"{klass}:{tag}", what, rep)
+            report(ctx, case, f"{klass}:{tag}", what, rep)
 
 
 def run(ctx, budget):
@@ -214,4 +255,5 @@ def replay(ctx, body):
     ctx.cov["rule"] = RULE
     if "case" not in body:  # a no-failing-input report: replay its first diverging input
         body = body["trace_divergences"][0]["detail"]
+    ctx._shrunk = 5  # replay exactly the recorded input, no further shrinking
     run_cases(ctx, [body["case"]])
